@@ -402,5 +402,45 @@ theorem run_spec (style : Style) (U : List κ) (hU : Asc U) :
           congr 1
           exact (sum_rows hU hnd hok _ hrows (fun σ => (zv :: zr').map σ = q) σ0).symm
 
+/-! ### same tensors, static shape conditions -/
+
+/-- two cursors denote the same tensor: equal values under every assignment of the index variables
+    (what `swizzleRanks` must establish between an operand and its re-ordered copy) -/
+def SameTensor (c₁ c₂ : Cur κ) : Prop := ∀ σ, cval c₁ σ = cval c₂ σ
+
+/-- operand by operand -/
+def SameOps : List (Cur κ) → List (Cur κ) → Prop
+  | [], [] => True
+  | a :: as, b :: bs => SameTensor a b ∧ SameOps as bs
+  | _, _ => False
+
+theorem prodVal_same : ∀ {ops₁ ops₂ : List (Cur κ)}, SameOps ops₁ ops₂ → ∀ (σ : Nat → κ),
+    prodVal ops₁ σ = prodVal ops₂ σ
+  | [], [], _, _ => rfl
+  | a :: as, b :: bs, h, σ => by
+    have ih := prodVal_same h.2 σ
+    unfold prodVal at *
+    simp only [List.map_cons, prodL]
+    rw [h.1 σ, ih]
+  | [], _ :: _, h, _ => h.elim
+  | _ :: _, [], h, _ => h.elim
+
+/-- static side conditions of a program: operands concordant with the loop order, every loop
+    variable in some operand -/
+def shapeB (order : List Nat) (rks : List (List Nat)) : Bool :=
+  rks.all (fun r => r.isSublist order) && order.all (fun v => rks.any (fun r => r.contains v))
+
+theorem opsOK_of_shape (U : List κ) (order : List Nat) (ops : List (Cur κ))
+    (hshape : shapeB order (ops.map (·.ranks)) = true)
+    (htrees : ∀ c ∈ ops, Ft.WF c.ranks.length c.t ∧ coordsInB U c.ranks.length c.t = true) : OpsOK U order ops := by
+  simp only [shapeB, Bool.and_eq_true, List.all_eq_true, List.any_eq_true, List.mem_map,
+    forall_exists_index, and_imp, forall_apply_eq_imp_iff₂, List.contains_iff_mem] at hshape
+  refine ⟨fun c hc => List.isSublist_iff_sublist.1 (hshape.1 c hc), ?_, fun c hc => (htrees c hc).1,
+    fun c hc => (htrees c hc).2⟩
+  intro v hv
+  obtain ⟨r, ⟨c, hc, rfl⟩, hvr⟩ := hshape.2 v hv
+  exact ⟨c, hc, hvr⟩
+
+
 end
 end Ft.C06
